@@ -28,7 +28,7 @@ def optima_func_tt_beam(A, k=10, k_loc=None, ret_all=False):
     if k_loc is None:
         k_loc = k
 
-    A = teneva.copy(A)
+    A = [np.array(G, dtype=float) for G in A]
     for G in A:
         G[:, 0, :] *= np.sqrt(2.)
     A = teneva.orthogonalize(A, 0)
